@@ -21,6 +21,11 @@
 (*      once unless the connection that got the request terminated         *)
 (*  R4  identifiers returned by open_substream are never reused (across    *)
 (*      all protocols sharing the allocator)                               *)
+(*      (a connection whose report of the answer is refused or dropped    *)
+(*      because the protocol is slow to drain its inbox has NOT answered:  *)
+(*      the request stays open and is judged at quiescence)                *)
+(*  Inbound substreams: the statement does not demand that they are        *)
+(*      delivered; a lost one is recorded by the check, never judged.      *)
 (*  X   cross-check for C07: report_connection_closed tells the manager    *)
 (*      only after every protocol has been told (this ordering is what     *)
 (*      keeps a third overlapping connection away from the protocols)      *)
@@ -136,6 +141,12 @@ MonStep(M, s, r, panic) ==
            ELSE M
     [] s.a = "inbound" ->
          IF r.k = "ok" THEN [M EXCEPT !.inb = (<<s.q, s.p>> :> (Inb(M, s.q, s.p) + 1)) @@ @] ELSE M
+    [] s.a = "deliver" ->
+         \* a report call that was suspended on a full protocol inbox has completed
+         IF r.k # "ok" THEN M
+         ELSE IF s.what = "reply" THEN
+              IF s.id \in DOMAIN M.req THEN [M EXCEPT !.req[s.id].rep = IF s.ok THEN "ok" ELSE "fail"] ELSE M
+         ELSE [M EXCEPT !.inb = (<<s.q, s.p>> :> (Inb(M, s.q, s.p) + 1)) @@ @]
     [] OTHER -> M    \* fclose
 
 \* nothing is in flight: every inbox is empty, every live connection has read all its commands
